@@ -971,6 +971,10 @@ func (tx *Transaction) WriteRequestBody(b []byte) (*types.Interruption, int, err
 
 		if tx.WAF.RequestBodyLimitAction == types.BodyLimitActionProcessPartial {
 			writingBytes = tx.RequestBodyLimit - tx.requestBodyBuffer.length
+			if writingBytes < 0 {
+				// ctl:requestBodyLimit lowered the limit below what is already buffered
+				writingBytes = 0
+			}
 			runProcessRequestBody = true
 		}
 	}
@@ -1241,6 +1245,10 @@ func (tx *Transaction) WriteResponseBody(b []byte) (*types.Interruption, int, er
 
 		if tx.WAF.ResponseBodyLimitAction == types.BodyLimitActionProcessPartial {
 			writingBytes = tx.ResponseBodyLimit - tx.responseBodyBuffer.length
+			if writingBytes < 0 {
+				// ctl:responseBodyLimit lowered the limit below what is already buffered
+				writingBytes = 0
+			}
 			runProcessResponseBody = true
 		}
 	}
